@@ -12,6 +12,8 @@ out=/tmp/seed/$prop/eval_$letter
 mkdir -p "$out"
 cd /verif || exit 2
 git -C "$wt" checkout -q -- . || exit 2
+# evaluate on top of the current /repo HEAD (fix: commits made after the seed was written must be present)
+git -C "$wt" checkout -q --detach "$(git -C /repo rev-parse HEAD)" || exit 2
 git -C "$wt" apply "/tmp/seed/$prop/OUT/patch$letter.diff" || { echo "cannot apply"; exit 2; }
 for chk in "$@"; do
   before=$(ls replay/$chk 2>/dev/null | sort)
